@@ -33,9 +33,10 @@ static int chosen[4096], nopts[4096];
 static int preemptions, max_preemptions = 2, spurious_budget = 1, max_steps = 3000;
 static int sync_log = 1;
 
+static int misuse;          /* unlocks and condition waits by a thread that does not own the mutex (undefined for real mutexes) */
 static void out_choices(const char* outcome) {
     int i;
-    fprintf(logf, "{\"ev\":\"end\",\"outcome\":\"%s\",\"choices\":[", outcome);
+    fprintf(logf, "{\"ev\":\"end\",\"outcome\":\"%s\",\"misuse\":%d,\"choices\":[", outcome, misuse);
     for (i = 0; i < pos; i++) fprintf(logf, "%s[%d,%d]", i ? "," : "", chosen[i], nopts[i]);
     fprintf(logf, "]}\n");
     fflush(logf);
@@ -189,7 +190,7 @@ void sh_mutex_lock(sh_mutex* m) {
 
 void sh_mutex_unlock(sh_mutex* m) {
     pthread_mutex_lock(&big);
-    if (m->owner != current) { slog("badunlock", m->id, ""); }
+    if (m->owner != current) { misuse++; slog("badunlock", m->id, ""); }
     m->owner = -1;
     slog("unlock", m->id, "");
     schedule();
@@ -201,7 +202,7 @@ static int cond_block(sh_cond* c, sh_mutex* m, int timed) {
     pthread_mutex_lock(&big);
     me = current;
     slog("cwait", c->id, timed ? "timed" : "");
-    if (m->owner != me) slog("badwait", m->id, "");
+    if (m->owner != me) { misuse++; slog("badwait", m->id, ""); }
     m->owner = -1;
     lt[me].state = ST_BLOCK_COND; lt[me].cond = c; lt[me].mutex = m; lt[me].timed = timed; lt[me].signalled = 0;
     schedule();                               /* returns after wake-up AND reacquisition of m */
